@@ -122,12 +122,17 @@ pub trait TryMaker {
     #[wrap_with_obj(Leaf)]
     type Own: Leaf + 'static;
     fn try_leaf(self, fail: bool) -> Result<Self::Own, u8>;
+    #[int_result]
+    fn try_make(&self, fail: bool) -> Result<Self::Own, ()>;
 }
 impl TryMaker for P {
     type Own = L;
     fn try_leaf(self, fail: bool) -> Result<L, u8> {
         unsafe { CTX_SEEN_IN_CALL = ctx_live() };
         if fail { Err(self.pay.val as u8) } else { Ok(L(Pay::new(self.pay.val ^ 5))) }
+    }
+    fn try_make(&self, fail: bool) -> Result<L, ()> {
+        if fail { Err(()) } else { Ok(L(Pay::new(self.pay.val ^ 6))) }
     }
 }
 
@@ -197,3 +202,10 @@ impl Dup for D {
 
 cglue_trait_group!(DupGrp, Dup, { Clone });
 cglue_impl_group!(D, DupGrp, { Clone });
+/// same group, optional trait NOT enabled
+pub struct D2(pub Pay);
+impl Dup for D2 {
+    fn d_val(&self) -> u32 { self.0.val }
+    fn dup(&self) -> D2 { D2(Pay::new(self.0.val ^ 0x10)) }
+}
+cglue_impl_group!(D2, DupGrp, {});
